@@ -543,6 +543,9 @@ def sim_classes():
                 Required('name'): str,
                 Required('table', default={}): dict,
                 Required('tag', default=True): bool,
+                # an author may well return module-level result constants: with shared=True the
+                # same dictionary object is returned for the same (expect, input) every time
+                Required('shared', default=False): bool,
             })
 
         def infer_from_expect(self, expect):
@@ -577,7 +580,12 @@ def sim_classes():
                 tag = '{%s|%s}' % (name, student_input)
                 msg = tag if not msg else msg + ' ' + tag
             ok = answer['ok'] if credit == 1 else self.grade_decimal_to_ok(grade)
-            return {'ok': ok, 'grade_decimal': grade, 'msg': msg}
+            result = {'ok': ok, 'grade_decimal': grade, 'msg': msg}
+            if self.config['shared']:
+                cache = self.__dict__.setdefault('_results', {})
+                key = (answer['expect'], student_input, grade, msg, str(ok))
+                return cache.setdefault(key, result)
+            return result
 
     _CLS.update({'SimSampler': SimSampler, 'SimFunctionSet': SimFunctionSet,
                  'SimItemGrader': SimItemGrader})
